@@ -610,6 +610,24 @@ def _digits_only(prog, f, b, t):
         if g is not None and _re.fullmatch(r"(\\d|\[0-9\])(\+|\{\d+(,\d*)?\})", g):
             return "capture group %d of %r is %r" % (n, pat, g)
         return None
+    # D. the prefix handed back by a splitting helper at an offset that is a count of leading ASCII digits:
+    #    `self.advance_by(self.string.chars().take_while(char::is_ascii_digit).count())`
+    r0 = prim.expand_single_def_vars(f, recv).strip()
+    while r0.k == "call" and r0.a["name"] in ("unwrap", "expect", "unwrap_or_default") and r0.kids:
+        r0 = r0.kids[0].strip()
+    if r0.k == "variant" and r0.kids:
+        r0 = r0.kids[0].strip()
+    if r0.k == "call" and r0.a["callee"].startswith("findutils::") and len(r0.kids) == 2:
+        from .. import audit as _audit
+        counted = _audit._ascii_prefix_count(prog, f, r0.kids[1])
+        digit_pred = "is_ascii_digit" in prim.expand_single_def_vars(f, r0.kids[1]).fmt()
+        hf = prog.fns.get(r0.a["callee"]) or prog.fns.get(r0.a["callee"].split("::<")[0])
+        if counted is not None and digit_pred and hf is not None:
+            oks = [a.strip() for a in prim.flatten_phi(prim.origin_of_local(hf, 0)) if a.strip().k == "agg" and str(a.strip().a).endswith(("Result::Ok", "Option::Some"))]
+            prefix = bool(oks) and all(any(cn.a["name"] in ("split_at_checked", "split_at", "get", "index") for cn in a.call_nodes()) and any(y.k == "arg" and y.a.get("idx") == 2 for y in a.walk()) and
+                                       (any(y.k == "field" and str(y.a) == "0" for y in a.walk()) or any(y.k == "agg" and "RangeTo" in str(y.a) for y in a.walk())) for a in oks)
+            if prefix and any(y.k == "field" for y in counted.walk()):
+                return "the text is the prefix %s returns for an offset that is the count of leading is_ascii_digit characters of the same string" % prim.short(hf.path)
     # C. a counted run of digits: text[0..k] where k only ever grows by one under an is_ascii_digit test of the text's front
     rng = [x for x in recv.walk() if x.k == "agg" and "Range" in str(x.a)]
     ks = [x for x in recv.walk() if x.k == "var"]
